@@ -263,7 +263,7 @@ func Forall(vars []Term, body Term, patterns ...[]Term) Term {
 	return Term{sb.String(), SBool}
 }
 
-func Exists(vars []Term, body Term) Term {
+func Exists(vars []Term, body Term, patterns ...[]Term) Term {
 	if len(vars) == 0 {
 		return body
 	}
@@ -273,7 +273,23 @@ func Exists(vars []Term, body Term) Term {
 		fmt.Fprintf(&sb, "(%s %s)", v.S, v.Sort)
 	}
 	sb.WriteString(") ")
-	sb.WriteString(body.S)
+	if len(patterns) > 0 {
+		sb.WriteString("(! ")
+		sb.WriteString(body.S)
+		for _, p := range patterns {
+			sb.WriteString(" :pattern (")
+			for i, t := range p {
+				if i > 0 {
+					sb.WriteByte(' ')
+				}
+				sb.WriteString(t.S)
+			}
+			sb.WriteString(")")
+		}
+		sb.WriteString(")")
+	} else {
+		sb.WriteString(body.S)
+	}
 	sb.WriteString(")")
 	return Term{sb.String(), SBool}
 }
